@@ -2,7 +2,6 @@ package ref
 
 import (
 	"verif/fw"
-	"verif/gen"
 )
 
 // Embeddings enumerates by brute force every assignment of the pattern's
@@ -21,8 +20,8 @@ type Cands struct {
 }
 
 func Candidates(msg interface{}) *Cands {
-	c := &Cands{Subs: gen.Subterms(msg)}
-	for _, k := range gen.MapKeys(msg) {
+	c := &Cands{Subs: fw.Subterms(msg)}
+	for _, k := range fw.MapKeys(msg) {
 		c.Keys = append(c.Keys, k)
 	}
 	return c
